@@ -39,22 +39,32 @@ def mailbox(F, w):
         if t["k"] == "switch" and "enum_place" in t and t["enum_place"]["l"] in cand and not t["enum_place"]["p"]:
             heads.append((bi, t))
     if len(heads) != 1:
-        # several examinations of the mailbox: the loop-head one is the one that dominates the draw
+        # several examinations of the mailbox (`while let Ok(Pause) = msg {..}` followed by `if let Err(Disconnected) = msg {..}`):
+        # the first one of those that dominate the draw is where an examination starts
         D = draw_block(w)
-        heads = [h for h in heads if D is not None and w.dominates(h[0], D)]
+        doms = [h for h in heads if D is not None and w.dominates(h[0], D)]
+        heads = [h for h in doms if all(w.dominates(h[0], o[0]) for o in doms)]
         if len(heads) != 1:
             return None
     hb, ht = heads[0]
     msg = ht["enum_place"]["l"]
+    # the outcomes: every value the mailbox can hold, walked through the examination (all switches it decides) to the first block
+    # that is not part of it
+    cmd = F.adts.get("sampler::ChainCommand")
+    if cmd is None or not w.local_ty(msg).startswith("std::result::Result<sampler::ChainCommand"):
+        return None
+    values = [(v["name"], ("V", "Ok", (("V", v["name"], ()),))) for v in cmd["variants"]]
+    values += [(e, ("V", "Err", (("V", e, ()),))) for e in ("Empty", "Disconnected")]
     out = {}
-    for a in ht["arms"]:
-        nb = a["target"]
-        t2 = w.blocks[nb]["term"]
-        if t2["k"] == "switch" and "enum_place" in t2 and t2["enum_place"]["l"] == msg:
-            for a2 in t2["arms"]:
-                out[a2["name"]] = a2["target"]
-        else:
-            out[a["name"]] = nb
+    for name, val in values:
+        cur, env = hb, {msg: val}
+        for _ in range(16):
+            env2, nxt, decided = w.feasible_step(cur, env)
+            if not decided or len(nxt) != 1:
+                break
+            cur, env = nxt[0], env2
+        if cur != hb:
+            out[name] = cur
     return msg, hb, out, tr
 
 
@@ -411,6 +421,37 @@ def r6(F, R):
 
 
 
+def r7(F, R, w):
+    R.rule("C12-R7", "no draw without a look at the mailbox (shape-independent): in the chain worker the draw call is not reachable from the entry of "
+                     "the worker, nor from a previous draw, without passing a receive on the chain's mailbox -- a chain that starts, or loops, "
+                     "while a Pause is waiting in its mailbox must find it before it draws")
+    D = draw_block(w)
+    if D is None:
+        R.missing("C12-R7", "expanded_draw call in the worker")
+        return
+    rx = [bb for bb, t in w.calls() if strip_generics(t["callee"].get("path", "")).endswith(("Receiver::try_recv", "Receiver::recv", "Receiver::recv_timeout", "Receiver::try_iter"))]
+    site = "%s @%s" % (w.path, w.loc())
+    if not rx:
+        R.missing("C12-R7", "a receive on the mailbox in the worker")
+        return
+    first = D in w.reach_from(0, avoid=rx) or D == 0
+    if first:
+        R.bad("C12-R7", w.path + ":first-draw", site, "the first draw is reachable from the start of the chain without reading the mailbox: a chain that starts "
+              "while the sampler is paused draws before it sees the Pause")
+    else:
+        R.ok("C12-R7", w.path + ":first-draw", site, "every path from the start of the worker to the draw reads the mailbox (%d receive sites)" % len(rx))
+    again = False
+    for s_ in w.succs(D):
+        if s_ in rx:
+            continue
+        if s_ == D or D in w.reach_from(s_, avoid=rx):
+            again = True
+    if again:
+        R.bad("C12-R7", w.path + ":next-draw", site, "a draw is followed by another draw on a path that does not read the mailbox")
+    else:
+        R.ok("C12-R7", w.path + ":next-draw", site, "every path from one draw to the next reads the mailbox")
+
+
 def run(F, R, config=None):
     if "parallel" not in C10.features(F):
         R.not_evaluated.append("C12: feature `parallel` off in this configuration")
@@ -420,6 +461,7 @@ def run(F, R, config=None):
     if w is None:
         R.missing("C12-R1", "worker closure")
         return
+    r7(F, R, w)
     mb = r1(F, R, w)
     r2(F, R, w, mb)
     r3(F, R, w, mb)
@@ -430,6 +472,6 @@ def run(F, R, config=None):
     R.assume("commands reach a chain only through its own mailbox channel (C10-R3 capture inventory)")
 
 
-FEATURE_RULES = {"C12-R1": "parallel", "C12-R2": "parallel", "C12-R3": "parallel", "C12-R4": "parallel", "C12-R5": "parallel", "C12-R6": "parallel"}
+FEATURE_RULES = {"C12-R1": "parallel", "C12-R2": "parallel", "C12-R3": "parallel", "C12-R4": "parallel", "C12-R5": "parallel", "C12-R6": "parallel", "C12-R7": "parallel"}
 CONFIGS = ["all", "default"]
 SELFTEST = True
